@@ -37,7 +37,8 @@ from lib.core import Ctx, enc, rat
 from lib import stage
 
 ID = "C13"
-LEAN_TARGETS = ["AiuVerif.Props.C13"]
+NEEDS_GEN = True
+LEAN_TARGETS = ["AiuVerif.Props.C13", "AiuVerif.Props.Order"]
 THEOREMS = [
     "AiuVerif.C13.sweep_correct",
     "AiuVerif.C13.sweep_samples_every_change",
@@ -48,6 +49,7 @@ THEOREMS = [
     "AiuVerif.C13.prepIvs_sorted_of_sorted_stream",
     "AiuVerif.C13.concurrent_preps_correct_of_sorted_stream",
     "AiuVerif.C13.inFlightBefore_is_left_limit",
+    "AiuVerif.Order.preps_order",   # registration order / guards / shared context, re-decided on the generated sites
 ]
 RULE = ("event streams for the queueing_counter stage: exhaustive start-sorted families of up to 4 (quick) / 5 "
         "(thorough) Prep intervals with endpoints in {0..5} x keep_prep on/off; random structured streams with "
